@@ -21,7 +21,6 @@ use hx03::{
 use rand::{RngExt, SeedableRng, rngs::StdRng, seq::SliceRandom};
 use serde_json::{Value, json};
 
-const WATCHDOG: Duration = Duration::from_secs(20);
 
 fn spawn_run(host: &str, driver: &str, env: &Arc<Env>) -> (mpsc::Receiver<Result<Outcome, String>>, std::thread::JoinHandle<()>) {
     let (tx, rx) = mpsc::channel();
@@ -78,6 +77,7 @@ fn main() {
     let iters: usize = opt("--iters").and_then(|s| s.parse().ok()).unwrap_or(3);
     let hosts: Vec<String> = opt("--hosts").unwrap_or("tokio,tokio_mt,futures".into()).split(',').map(|s| s.to_string()).collect();
     let drivers: Vec<String> = opt("--drivers").unwrap_or("iour,poll".into()).split(',').map(|s| s.to_string()).collect();
+    let watchdog = Duration::from_millis(opt("--watchdog-ms").and_then(|s| s.parse().ok()).unwrap_or(20_000u64));
     ctl::install_counters_only();
     let mut rng = StdRng::seed_from_u64(seed);
     let mut rep = Report::new();
@@ -94,7 +94,7 @@ fn main() {
                 let env = Env::new(&prog, Duration::from_millis(5));
                 let (rx, h) = spawn_run("block_on", driver, &env);
                 let f = fire_randomly(&env, &mut rng, 500);
-                let r = match rx.recv_timeout(WATCHDOG) {
+                let r = match rx.recv_timeout(watchdog) {
                     Ok(r) => {
                         let _ = h.join();
                         r
@@ -114,12 +114,12 @@ fn main() {
                     let pause = [0u64, 50, 400, 3000][rng.random_range(0..4)];
                     let f = fire_randomly(&env, &mut rng, pause);
                     let _ = f.join();
-                    let mut outcome = rx.recv_timeout(WATCHDOG).ok();
+                    let mut outcome = rx.recv_timeout(watchdog).ok();
                     if outcome.is_none() {
                         rep.problem(
                             "contract",
                             json!({"site": "compat-stress", "what": "hang", "driver": driver, "host": host, "jobs": has_jobs}),
-                            format!("execute() did not return within {WATCHDOG:?} after every event of the program had been fired"),
+                            format!("execute() did not return within {watchdog:?} after every event of the program had been fired"),
                             &case,
                             it,
                         );
